@@ -32,6 +32,13 @@ class ESDC1AModel(ESDC2AModel):
                                 tex_name='V_{RMIN}',
                                 )
 
+        # point the anti-windup limiter of `LA` (created by the parent class with
+        # the removed VarServices) to the new limits
+        self.LA.upper = self.VRU
+        self.LA.lower = self.VRL
+        self.LA_lim.upper = self.VRU
+        self.LA_lim.lower = self.VRL
+
 
 class ESDC1A(ESDC2AData, ESDC1AModel):
     """
